@@ -55,7 +55,7 @@ theorem allPres_succ (G : GlobalRel R) (prog : Program) (n : Nat) (ih : AllPres 
     split
     · exact rel_raiseNew G _ _ _
     · rename_i kind _
-      apply runStepWith_rel G
+      apply runStepDescribed_rel G
       · cases kind <;> simp only []
         · exact probeStep_rel G
         · exact fun s => G.refl _
@@ -83,14 +83,21 @@ theorem allPres_succ (G : GlobalRel R) (prog : Program) (n : Nat) (ih : AllPres 
       | _ => exact h1
   · -- runStepGroup
     intro pipe g rs s
-    rw [runStepGroup_eq]
-    generalize hr : runSteps n prog pipe (groupSteps prog pipe g) s = p
-    obtain ⟨s1, r⟩ := p
-    have h1 : R s s1 := by have := hSteps pipe (groupSteps prog pipe g) s; rw [hr] at this; exact this
-    cases r with
-    | jump c => exact G.trans h1 (hGroups pipe _ _ _ s1)
-    | stopGroup => simp only []; split <;> exact h1
-    | _ => exact h1
+    cases hgs : getPipelineSteps prog pipe g with
+    | error e =>
+      -- a group body without a length: `get_pipeline_steps` raises, nothing ran
+      obtain ⟨en, em⟩ := e
+      rw [runStepGroup_unsized n prog pipe g rs s en em hgs]
+      exact rel_raiseNew G _ _ _
+    | ok ss =>
+      rw [runStepGroup_eq' n prog pipe g rs s ss hgs]
+      generalize hr : runSteps n prog pipe ss s = p
+      obtain ⟨s1, r⟩ := p
+      have h1 : R s s1 := by have := hSteps pipe ss s; rw [hr] at this; exact this
+      cases r with
+      | jump c => exact G.trans h1 (hGroups pipe _ _ _ s1)
+      | stopGroup => simp only []; split <;> exact h1
+      | _ => exact h1
   · -- runGroupList
     intro pipe gs s
     cases gs with
